@@ -4,6 +4,7 @@ Proof: Properties/C18.v (all interval sequences, all orders).
 Tie K: verifdump ranges (real DisjunctRangeSet.AddRange) vs extracted Ranges.classes on the same
 interval sequences; independently the property oracle is evaluated on the Go output alone."""
 import collections
+import os
 import vlib
 
 BOUNDARY = [0, 1, 0x7F, 0x80, 0x7FF, 0x800, 0xD7FF, 0xE000, 0xFFFD, 0xFFFF, 0x10000, 0x10FFFE, 0x10FFFF]
@@ -169,18 +170,36 @@ def run(ctx):
     state_cases = 0
     state_bad = []
     for gi in range(15 if ctx.tier == "quick" else 150):
-        lg, _ = lexgen.gen_lex_grammar(ctx.rng, safe_regdefs=True, alpha=COLL[gi % len(COLL)])
+        # every third grammar over the ordinary alphabet (overlapping, nested and adjacent ranges are frequent there)
+        lg, _ = lexgen.gen_lex_grammar(ctx.rng, safe_regdefs=True, alpha=COLL[gi % len(COLL)]) if gi % 3 else lexgen.gen_lex_grammar(ctx.rng, safe_regdefs=True)
         rc, out, d = ws.gocc("s%d" % gi, lg.text(), timeout=60)
         if rc != 0:
             continue
         dump, _ = c01.lexdump(ctx, d)
         if not dump:
             continue
-        v = subprocess.run([ctx.modelrun, "lexgen", dump, "100000"], capture_output=True, text=True, timeout=600).stdout.strip()
+        # the classes as they reach the GENERATED lexer: the case ranges of every state of the emitted transitiontable.go must be
+        # the model's classes too (sorted, disjoint, non-empty, same union): the code that writes the table is part of the path
+        args = [ctx.modelrun, "lexgen", dump, "100000"]
+        try:
+            import lexcommon
+            rows = gen.parse_transtab(os.path.join(d, "lexer", "transitiontable.go"))
+            acts = gen.parse_acttab(os.path.join(d, "lexer", "acttab.go"))
+            tab = os.path.join(d, "dfa.tab")
+            lexcommon.write_table_file(tab, rows, acts)
+            args.append(tab)
+            for sno, row in enumerate(rows):
+                cs = row["cases"]
+                if any(lo > hi for (lo, hi, _) in cs) or any(cs[i][1] >= cs[i + 1][0] for i in range(len(cs) - 1)):
+                    state_bad.append({"grammar": lg.text(), "emitted_state": sno, "cases": cs[:12],
+                                      "reason": "case ranges of the emitted transition table are not sorted, disjoint and non-empty"})
+        except Exception as e:
+            state_bad.append({"grammar": lg.text(), "reason": "emitted transition table not readable: %s" % str(e)[:200]})
+        v = subprocess.run(args, capture_output=True, text=True, timeout=600).stdout.strip()
         state_cases += 1
         if not v.startswith("EQUAL"):
             state_bad.append({"grammar": lg.text(), "lexgen_vs_gocc": v})
-    ctx.add_obligation("K: per lexer state, gocc's rune classes = Ranges.classes of the terminals expected in the state (LexGen model) on %d "
+    ctx.add_obligation("K: per lexer state, gocc's rune classes AND the case ranges of the emitted transition table = Ranges.classes of the terminals expected in the state (LexGen model) on %d "
                        "lexical grammars over alphabets with code points equal modulo 256 / 65536" % state_cases, not state_bad, str(state_bad[:1])[:600])
     for b in state_bad[:2]:
         if reported < 5:
